@@ -12,6 +12,7 @@ mod c09;
 mod c12;
 mod c13;
 mod c17;
+mod c18;
 mod c20;
 
 fn main() {
@@ -24,6 +25,7 @@ fn main() {
         "C12" => c12::run_case,
         "C13" => c13::run_case,
         "C17" => c17::run_case,
+        "C18" => c18::run_case,
         "C20" => c20::run_case,
         _ => { eprintln!("usage: verif_harness <property id>"); std::process::exit(2) }
     };
